@@ -13,7 +13,7 @@ import json
 import re
 
 import translate_units
-from vlib import Check, RunnerPool, compile_job, driver, hexs, unhex, log
+from vlib import Check, RunnerPool, compile_job, driver, hexs, unhex, log, known_findings
 
 OPS = ["add", "sub", "lt", "eq", "rem", "min", "max", "div", "mul", "divInspect", "mulInspect", "compatible",
        "unitMul", "unitDiv"]
@@ -257,6 +257,53 @@ def evaluate_compound(ck, pool, cases, disagreements):
     return failing
 
 
+
+# ---------------------------------------------------------------------------------------------
+# global min()/max() (value/calculation.rs) with two arguments of known inconvertible units:
+# direct predicate only — "operations on inconvertible units are errors, never silently computed"
+# ---------------------------------------------------------------------------------------------
+CALC_BRIDGE = "C08-calc-minmax-unitless-bridge"
+CALC_REPS = [("px", 0), ("em", 0), ("deg", 1), ("s", 2), ("Hz", 3), ("dppx", 4)]
+
+
+def evaluate_calc_minmax(ck, pool):
+    items = []
+    for (a, sa) in CALC_REPS:
+        for (b, sb) in CALC_REPS:
+            if sa == sb:
+                continue
+            for mags in (("1", "1", "1"), ("1", "2", "3")):
+                for fn in ("min", "max"):
+                    for arr, third in (("ab", None), ("a1b", ""), ("1ab", ""), ("ab1", ""), ("%ab", "%"), ("fab", "foo0"),
+                                       ("a%b", "%")):
+                        if third is None:
+                            args = [mags[0] + a, mags[2] + b]
+                        else:
+                            pos = {"a1b": 1, "1ab": 0, "ab1": 2, "%ab": 0, "fab": 0, "a%b": 1}[arr]
+                            two = [a, b]
+                            args, k = [], 0
+                            for j in range(3):
+                                if j == pos:
+                                    args.append(mags[j] + third)
+                                else:
+                                    args.append(mags[j] + two[k])
+                                    k += 1
+                        items.append((f"{fn}({', '.join(args)})", third == ""))
+    jobs = [compile_job(f"x{{v: {e}}}", syntax="scss") for e, _ in items]
+    failing = []
+    for (e, unitless), ans in zip(items, pool.map(jobs, timeout=20)):
+        ck.count(("c08-calc", e), True)
+        ck.hist("calc-minmax:" + str(ans.get("status")))
+        if ans.get("status") == "err" and "ncompatible" in (ans.get("err", {}).get("message") or ""):
+            continue
+        got = (ans.get("css") or ans.get("err", {}).get("message") or ans.get("panic") or "").strip()
+        failing.append({"source": f"x{{v: {e}}}", "style": "e", "impl_observation": f"{ans.get('status')} {got}"[:200],
+                        "model_observation": "err incompatible",
+                        "expected_by_property": "min()/max() over numbers with inconvertible units must be an error",
+                        "tags": [CALC_BRIDGE] if (unitless and ans.get("status") == "ok") else []})
+    return failing
+
+
 def run(tier, seed):
     ck = Check("C08", tier, seed)
     ck.cov["rule"] = ("EXHAUSTIVE: every ordered pair over the 34 known units + one unknown unit + unitless (36x36) and two "
@@ -376,11 +423,16 @@ def run(tier, seed):
     conv_pairs = [(u, v) for (u, v) in pairs if u != v and spec_cmp[(u, v)] and u not in ("-",) and v not in ("-",)
                   and not u.startswith("?") and not v.startswith("?")]
     failing += evaluate_compound(ck, pool, compound_cases(ck.rng, tier, conv_pairs), disagreements)
+    failing += evaluate_calc_minmax(ck, pool)
     failing.sort(key=lambda f: len(f["source"]))
     reported = 0
     for f in failing:
         if ck.impl_violation(f["source"], f, tags=f["tags"]):
             reported += 1
+    seen = {k["id"] for k in ck.known_seen}
+    for k in known_findings("C08"):
+        if k["id"] not in seen:
+            ck.notes.append(f"known finding {k['id']} was not reproduced in this run: entry may be stale")
     if ck.cov["model_disagreements"] and not reported:
         ck.unproved("correspondence-broken", {"correspondence": "units op (Grass.Units.runOp) vs grass, printed text / error class",
                                               "cases": disagreements})
